@@ -58,10 +58,15 @@ def apply_fault(spec, d, ft, lang, variant=0):
         tasks[last].setdefault("next", []).append({"do": list(roots)})
         return
     e = BROKEN[lang][variant % len(BROKEN[lang])] if kind == "grammar" else unassigned_ref(lang, ft["form"])
+    # selfref: the entry assigns the very name its expression reads (nothing assigns it earlier)
+    wkey, pkey = ("zz_unassigned", "zz_unassigned") if kind == "selfref" else ("w_fault", "p_fault")
+    if kind == "selfref" and pos == "publish":
+        tasks[t]["next"][ti]["publish"] = [{pkey: e}]
+        return
     if pos == "vars":
-        spec.setdefault("vars", []).append({"w_fault": e})
+        spec.setdefault("vars", []).append({wkey: e})
     elif pos == "output":
-        spec.setdefault("output", []).append({"w_fault": e})
+        spec.setdefault("output", []).append({wkey: e})
     elif pos == "action":
         tasks[t]["action"] = e
     elif pos == "input":
